@@ -145,6 +145,7 @@ fn tracked_write_one_call() {
 // Ok the sink has received all of it (a "successful" writer has handed every counted byte to the sink).
 // After the first Err the counter still never exceeds the bytes handed in.
 // (three calls ran out of memory at 10 GB: BufWriter's flush loop is inlined once per call and error path)
+// NOT CONFIRMED: not run yet (the three-call form exceeded 10 GB)
 // @unit name=tracked_write_two_calls props=C18 kind=bounded bound=2_calls_of<=2_bytes fns=TrackedWrite::write,TrackedWrite::write_all,TrackedWrite::flush,TrackedWrite::bytes_written tier=thorough timeout=900 mem=8
 #[kani::proof]
 #[kani::unwind(7)]
